@@ -57,6 +57,15 @@ type Options struct {
 	// nanosecond (explorer choice, one deviation): the clock is monotone
 	// but it moves between any two reads.
 	TickOnNow bool
+	// MainMayBlock: by default an execution whose main thread (the body) never
+	// finishes although nothing can run any more -- every thread is blocked for
+	// good, no timer is armed -- is reported as a liveness failure of the code
+	// under test (<property>/stuck/<scenario family>), unless the body has
+	// already reported something.  Scenarios whose main thread is *meant* to
+	// stay parked (a monitor waiting for events that the script never sends, a
+	// reader on a connection whose peer stays silent) set this and judge the
+	// blocked threads themselves.
+	MainMayBlock bool
 	// KeySteps adds every thread's own step count to the state key (a
 	// program-counter proxy for straight-line thread bodies whose position
 	// the harness key does not already determine).
@@ -100,6 +109,7 @@ type Result struct {
 	Livelock  bool      // step budget exceeded
 	Blocked   []Blocked // unfinished threads at the end
 	Panics    []string  // thread panics that were not recovered by the code under test
+	MainStuck bool      // the body never finished and this was reported as a failure (see Options.MainMayBlock)
 	Steps     int
 	End       time.Time // model time at the end
 }
@@ -166,6 +176,7 @@ func Run(c *mc.Ctx, opt Options, body func()) *Result {
 	s.cur = t0
 	t0.wake <- struct{}{}
 	<-s.mainDone
+	mainStuck, mainAt := !t0.exited, t0.desc
 	// teardown: unwind every parked thread, one at a time
 	s.aborting = true
 	for i := 0; i < len(s.threads); i++ { // threads may not grow while aborting
@@ -178,6 +189,10 @@ func Run(c *mc.Ctx, opt Options, body func()) *Result {
 	}
 	s.res.End = s.now
 	global = nil
+	if mainStuck && !opt.MainMayBlock && len(s.res.Panics) == 0 && !s.res.Livelock && !c.Failed() {
+		s.res.MainStuck = true
+		c.Fail("liveness", c.Property()+"/stuck/"+c.ScenarioFamily(), "the scenario's main thread never finished: nothing can run any more (main parked at %q; unfinished threads: %+v)", mainAt, s.res.Blocked)
+	}
 	return &s.res
 }
 
